@@ -104,7 +104,7 @@ def run(ctx):
                 old_coll = strip_wrappers(tt[1])
     if True:
         for p, e, loops in each_event(model, ["timer"], ("loop",)):
-            if id(e) in done or e["func"] != R.sweep_app:
+            if id(e) in done or R.sweep_app not in (e["func"],) + tuple(e["stack"]):
                 continue
             done.add(id(e))
             it = strip_wrappers(e["iter"]) if e["iter"] else None
@@ -169,8 +169,9 @@ def run(ctx):
                         ctx.ob("R12.keys", construct_of(x), ok, x, why)
     # deletes outside loops in prune
     for p, e, loops in each_event(model, ["timer"], ("sql",)):
-        if e["func"] == R.sweep_app and e["stmt"].kind == "delete" and \
-                e["db"] == "chan" and not any(l["func"] == R.sweep_app for l in loops):
+        if R.sweep_app in (e["func"],) + tuple(e["stack"]) and e["stmt"].kind == "delete" and \
+                e["db"] == "chan" and not any(
+                    R.sweep_app in (l["func"],) + tuple(l["stack"]) for l in loops):
             ctx.ob("R12.keys", construct_of(e), False, e,
                    "a sweep delete outside the per-element loops")
     if ntouch == 0:
